@@ -10,8 +10,8 @@ CFG = dict(
           "Proxy-Authorization, TE); bodies 0 B .. 5 MiB cut into pieces by 7 patterns (one write, 1-byte pieces, random <= 4 KiB, "
           "16 KiB, random <= 128 KiB, frame-size boundaries, 1 MiB), with and without Content-Length, with request trailers) through "
           "the REAL proxy stack over HTTP/1.1 and HTTP/2, 1-7 requests per scenario sequentially or concurrently, PreserveHost on and "
-          "off, to a backend answering with scripted status (19 codes), header set (end-to-end and hop-by-hop), streamed body "
-          "(same size/piece patterns, with and without Flush) and trailers; ORACLE = the pass-through specification computed with "
+          "off, to a backend answering with scripted status (28 codes, 200..999), header set (end-to-end and hop-by-hop), streamed body "
+          "(same size/piece patterns, with and without Flush) and 1-3 trailers announced fully / only the first name / not at all; ORACLE = the pass-through specification computed with "
           "the rewrite model: method, URI, Host rule, every sent header name's values, the set of other header names, body length + "
           "MD5, and the response status, headers, body length + MD5 and trailers as received by the client. "
           "dbuf: 3-33 operations on dataBuffer / pipe (writes of boundary sizes around the five chunk classes, reads of any size, "
